@@ -609,10 +609,12 @@ def run(ck):
         cases = gen_cases(ck, set(idents))
     idx = {n: i for i, n in enumerate(idents)}
     hl, ml = case_lines(cases, idx)
-    hout, crashes = pc.run_harness_resilient(harness, hl)
-    rc, mout, merr = vv.run_lines(model, "\n".join(ml) + "\n")
-    if rc != 0 or len(mout) != len(cases):
-        raise vv.BuildError("model driver failed: rc=%s %s" % (rc, merr[:500]))
+    hout, crashes, mout = [], {}, []
+    if cases:
+        hout, crashes = pc.run_harness_resilient(harness, hl)
+        rc, mout, merr = vv.run_lines(model, "\n".join(ml) + "\n")
+        if rc != 0 or len(mout) != len(cases):
+            raise vv.BuildError("model driver failed: rc=%s %s" % (rc, merr[:500]))
 
     bset = set(b & ~SIGN for b in boundary_bits(True))
     hist = {}
@@ -628,7 +630,7 @@ def run(ck):
         if contract and (ho or "").startswith("v") and "v" not in a:
             guard_hits += 1
         rep = {"prim": n, "param": (None if par is None else "%016x" % par), "args": a, "impl": ho, "model": mo}
-        if k < 2 or (k % (len(cases) // 4 + 1) == 0):
+        if k < 2 or (k % (len(cases) // 4 + 1) == 0) or ck.replay_path:
             ck.sample(rep)
         if ho is None or ho.startswith("CRASH"):
             ck.add_violation("%s:sanitizer" % n, "%s(%s) aborts under ASan/UBSan" % (n, " ".join(a)),
@@ -671,7 +673,7 @@ def run(ck):
             ho, mo = thout[k], tmout[k]
             if n >= 3:
                 ck.nontriv(("tree", " ".join(ex), tree_text(t)))
-            if k < 2:
+            if k < 2 or ck.replay_path:
                 ck.sample({"program": tree_text(t), "example": ex, "impl": ho, "model": mo})
             bad = tree_oracle(ho)
             if bad or ho is None or ho.startswith("CRASH"):
